@@ -158,6 +158,12 @@ class Effects:
                 return self.aliases(f[1])
             if f[2] == "astype" and kw(t, "copy") == ("const", False):
                 return self.aliases(f[1])
+            if f[2] in ("pop", "get", "setdefault") and f[1][0] == "param":
+                # kwargs.pop("shape", default): an object the caller put into the container, or the default
+                s = self.aliases(f[1])
+                for a in args[1:]:
+                    s |= self.aliases(a)
+                return s
             s = set()
             for q in self.by_method.get(f[2], []):
                 for pn, actuals in self.map_params(q, t, self.ret_alias.get(q, ())).items():
